@@ -371,7 +371,7 @@ impl Check for C20Check {
         "exploration"
     }
     fn rule(&self) -> String {
-        "scenario = 1..=4 Chronobox hardware models (0..=17 half-wrap markers, 0..=60 edges on seeded channels, a seeded share of them within 0, 2, 4 .. 2^23-2 ticks of a half wrap and written on the other side of the marker, scaler blocks whose payload imitates entries, at most one fault of {dropped marker, duplicated marker adjacent/apart, truncated tail inside entry/scaler block, word corrupted into a non-entry, marker corrupted into another valid marker (counter bits / top bit flipped), no counter-0 marker, counter-0 marker with top bit set (unasserted)}) and 2-3 layouts of the SAME streams: seeded cuts into CBFn banks (0..max bytes, inside entries and blocks), banks grouped into Chronobox events interleaved with main/sequencer/other events (including non-Chronobox events that carry CBF banks, and unknown CBF-like banks), 1..=4 files (.mid/.mid.lz4, LE/BE, 16/32/32a-bit banks), seeded argv order, seeded hash seed, and in a third of the layouts the I/O fault seam (short reads/writes and EINTR on every read(2)/write(2)). Every layout is one run of the real binary. Oracles: I1 exit status / CSV presence as the statement says; I2 rows = model rows per board in stream order, boards contiguous, channel and edge right; I3 every non-empty chronobox_time equals the model's true time (|dt| < 1 ns; a tick is 100 ns) and is empty exactly where the statement says; I4 identical CSV body across layouts. Non-trivial = at least one run of the binary on a stream with a counter-0 marker or a fault; distinct = distinct event-log hashes (stream bytes, layouts, outcomes).".into()
+        "scenario = 1..=4 Chronobox hardware models (0..=17 half-wrap markers, 0..=60 edges on seeded channels, a seeded share of them within 0, 2, 4 .. 2^23-2 ticks of a half wrap and written on the other side of the marker, scaler blocks whose payload imitates entries, at most one fault of {dropped marker, duplicated marker adjacent/apart, truncated tail inside entry/scaler block, word corrupted into a non-entry, marker corrupted into another valid marker (counter bits / top bit flipped), no counter-0 marker, counter-0 marker with top bit set (unasserted)}) and 2-3 layouts of the SAME streams: seeded cuts into CBFn banks (0..max bytes, inside entries and blocks), banks grouped into Chronobox events interleaved with main/sequencer/other events (including non-Chronobox events that carry CBF banks, and unknown CBF-like banks), 1..=4 files (.mid/.mid.lz4, LE/BE, 16/32/32a-bit banks), seeded argv order, seeded hash seed, and in a third of the layouts the I/O fault seam (short reads/writes and EINTR on every read(2)/write(2)); every fifth scenario also carries one HARD I/O fault in its first layout (EIO after a seeded share of the input bytes, or ENOSPC after n bytes of CSV): the program may then fail, but if it reports success every oracle below applies. Every layout is one run of the real binary. Oracles: I1 exit status / CSV presence as the statement says; I2 rows = model rows per board in stream order, boards contiguous, channel and edge right; I3 every non-empty chronobox_time equals the model's true time (|dt| < 1 ns; a tick is 100 ns) and is empty exactly where the statement says; I4 identical CSV body across layouts. Non-trivial = at least one run of the binary on a stream with a counter-0 marker or a fault; distinct = distinct event-log hashes (stream bytes, layouts, outcomes).".into()
     }
     fn assumptions(&self) -> Vec<String> {
         vec![
